@@ -994,7 +994,7 @@ func (s *Sched) speculate(t *task) bool {
 
 func blockedState(st string) bool {
 	return strings.HasPrefix(st, "sync.") || strings.HasPrefix(st, "semacquire") ||
-		strings.HasPrefix(st, "chan receive") || strings.HasPrefix(st, "select") || strings.HasPrefix(st, "chan send (nil") || strings.HasPrefix(st, "chan receive (nil")
+		strings.HasPrefix(st, "chan receive") || strings.HasPrefix(st, "select") || strings.HasPrefix(st, "chan send")
 }
 
 //go:norace
